@@ -90,3 +90,35 @@ impl std::hash::BuildHasher for SeededState {
 		h
 	}
 }
+
+/// New jobs and quit request of a finished action, with the jobs in creation order.
+pub(crate) struct SortedAction {
+	pub(crate) new: Vec<(crate::Id, (watchexec_supervisor::job::Job, tokio::task::JoinHandle<()>))>,
+	pub(crate) quit: Option<crate::action::QuitManner>,
+}
+
+pub(crate) fn sort_action(action: crate::action::ActionHandler) -> SortedAction {
+	let mut new: Vec<_> = action.new.into_iter().collect();
+	new.sort_by_key(|(id, _)| id.verif_order());
+	SortedAction {
+		new,
+		quit: action.quit,
+	}
+}
+
+/// The worker's jobs, drained in creation order.
+pub(crate) struct SortedJobs(Vec<(crate::Id, watchexec_supervisor::job::Job)>);
+
+impl SortedJobs {
+	pub(crate) fn drain(&mut self) -> std::vec::IntoIter<(crate::Id, watchexec_supervisor::job::Job)> {
+		std::mem::take(&mut self.0).into_iter()
+	}
+}
+
+pub(crate) fn sort_jobs(
+	jobs: &mut std::collections::HashMap<crate::Id, watchexec_supervisor::job::Job>,
+) -> SortedJobs {
+	let mut v: Vec<_> = jobs.drain().collect();
+	v.sort_by_key(|(id, _)| id.verif_order());
+	SortedJobs(v)
+}
